@@ -142,6 +142,23 @@ fn sweep_checks(ctx: &Ctx) {
                     }
                 }
             }
+            // history with the public current_state re-assigned between two sweeps
+            if steps == 1 {
+                let init: Vec<f64> = (0..d).map(|k| k as f64).collect();
+                let case = json!({"kind": "sweep", "ty": "f64", "d": d, "history": "step; assign current_state; step"});
+                let rec = new_rec::<f64>(mk_f64);
+                let log = rec.log.clone();
+                let mut chain = GibbsMarkovChain::new(rec, &init);
+                chain.step();
+                let n1 = log.lock().unwrap().get(&0).map(|l| l.len()).unwrap_or(0);
+                let relocated: Vec<f64> = (0..d).map(|k| -10.0 - k as f64).collect();
+                chain.current_state = relocated.clone();
+                chain.step();
+                let lg: Vec<(usize, Vec<f64>, f64)> = log.lock().unwrap().get(&0).cloned().unwrap_or_default()[n1..].to_vec();
+                check_log(ctx, "f64", &relocated, &lg, 1, chain.current_state(), &case);
+                ctx.evals(1);
+                ctx.transitions(2);
+            }
             // f32 and i32 states
             {
                 let init: Vec<f32> = (0..d).map(|k| k as f32 * 0.5).collect();
